@@ -62,8 +62,24 @@ PAYLOADS = [0, 1, -7, 3.5, 'txt', 'é', None, True, [1, [2, 3]], {'a': [1, 2], '
             {'__complex__': [1.5, -2.0]}]
 
 
+BIG_HEAD = (1 << 20) + 4096   # the pickle exceeds one MiB and two such values agree on their first MiB
+
+
+def short(x):
+    """printable form of a payload (bulky ones by length and digest)"""
+    r = repr(x)
+    if len(r) <= 120:
+        return r
+    import hashlib
+    return f'<{type(x).__name__} of {len(x) if hasattr(x, "__len__") else "?"} items, sha1 ' \
+           f'{hashlib.sha1(r.encode()).hexdigest()[:12]}, ends {r[-24:]}>'
+
+
 def mk_payload(d):
     if isinstance(d, dict):
+        if '__big__' in d:
+            # a bulky value: a common head of more than one MiB, then a short tail that tells them apart
+            return bytes([d['__big__'][0] % 256]) * BIG_HEAD + str(d['__big__'][1]).encode()
         if '__bytes__' in d:
             return bytes(d['__bytes__'])
         if '__tuple__' in d:
@@ -248,7 +264,7 @@ class Runner:
                 else:
                     touched = got  # replaced without asking the foreman for the primary entry
                     mops.append((head, ['ok', 'no-get-request']))
-                out.append(None if touched is None else repr(getattr(touched, 'payload', '<no payload>')))
+                out.append(None if touched is None else short(getattr(touched, 'payload', '<no payload>')))
                 self.judge(op, ident, run, m, want, touched, ref, problems, self.old.get(ident, []))
         # the metric state vector: walked by the real _load after the algorithm's own state vectors
         name, ver, keys = self.msv
@@ -267,13 +283,13 @@ class Runner:
         if touched is not None and not (m and same(getattr(touched, 'payload', '<no payload>'), want)) \
                 and any(same(getattr(touched, 'payload', '<no payload>'), p) for p in old):
             problems.append(('C06:load-stale', f'{where}: got a payload of this identity that was overwritten or '
-                                               f'removed before the load: {getattr(touched, "payload", None)!r}'
-                                               + (f', stored now {want!r}' if m else ', nothing is stored now')))
+                                               f'removed before the load: {short(getattr(touched, "payload", None))}'
+                                               + (f', stored now {short(want)}' if m else ', nothing is stored now')))
             return
         if not m:
             if touched is not None:
                 problems.append(('C06:load-foreign', f'{where}: nothing stored for this identity, yet the value was '
-                                                     f'replaced by payload {getattr(touched, "payload", None)!r}'))
+                                                     f'replaced by payload {short(getattr(touched, "payload", None))}'))
             return
         if touched is None:
             problems.append(('C06:load-missing', f'{where}: runs {sorted(m)} are stored, the value was left untouched'))
@@ -287,7 +303,7 @@ class Runner:
             owner = [i for i, mm in ref.items() if any(type(got) is type(p) and got == p for p in mm.values())]
             problems.append(('C06:load-foreign', f'{where}: got a payload stored by {owner[0]}'))
         else:
-            problems.append(('C06:load-altered', f'{where}: got {got!r}, stored {want!r}'))
+            problems.append(('C06:load-altered', f'{where}: got {short(got)}, stored {short(want)}'))
 
 
 # ---------------------------------------------------------------------- model side
@@ -446,6 +462,18 @@ CORPUS = [
      ['load', 1, '1', 't', 'A', V1, [['sv', V1, [['v', V1]]]]], ['load', 1, 'N', 't', 'A', V1, [['sv', V1, [['v', V1]]]]],
      ['close'], ['open'], ['add', 'X2'], ['load', 1, 'X1', 't', 'A', V1, [['sv', V1, [['v', V1]]]]],
      ['load', 1, 'X2', 't', 'A', V1, [['sv', V1, [['v', V1]]]]], ['load', 1, 'N', 't', 'A', V1, [['sv', V1, [['v', V1]]]]], ['dump']],
+    # bulky values (pickle > 1 MiB) that differ only after their first MiB, under another target, another run,
+    # another author and another value name: each load must give back exactly its own bytes, also after reopen
+    [['open'], ['update', 1, 'X', 't', 'A', V1, [['sv', V1, [['v', V1, {'__big__': [7, 'tail of X run 1']}],
+                                                             ['v1', V1, 'small sibling']]]]],
+     ['update', 1, 'X1', 't', 'A', V1, [['sv', V1, [['v', V1, {'__big__': [7, 'tail of X1 run 1']}]]]]],
+     ['update', 2, 'X', 't', 'A', V1, [['sv', V1, [['v', V1, {'__big__': [7, 'tail of X run 2']}]]]]],
+     ['update', 1, 'X', 't', 'A2', V1, [['sv', V1, [['v', V1, {'__big__': [7, 'tail of A2']}]]]]],
+     ['load', 1, 'X', 't', 'A', V1, [['sv', V1, [['v', V1], ['v1', V1]]]]], ['load', 1, 'X1', 't', 'A', V1, [['sv', V1, [['v', V1]]]]],
+     ['load', 2, 'X', 't', 'A', V1, [['sv', V1, [['v', V1]]]]], ['load', 1, 'X', 't', 'A2', V1, [['sv', V1, [['v', V1]]]]],
+     ['load', 7, 'X1', 't', 'A', V1, [['sv', V1, [['v', V1]]]]], ['close'], ['open'],
+     ['load', 1, 'X', 't', 'A', V1, [['sv', V1, [['v', V1]]]]], ['load', 1, 'X1', 't', 'A', V1, [['sv', V1, [['v', V1]]]]],
+     ['load', 9, 'X', 't', 'A', V1, [['sv', V1, [['v', V1]]]]], ['load', 1, 'X', 't', 'A2', V1, [['sv', V1, [['v', V1]]]]], ['dump']],
     # more tasks than targets when the target is added
     [['open'], ['update', 1, 'X', 't', 'A', V1, [['sv', V1, [['v', V1, 'x t']]]]],
      ['update', 1, 'X', 't2', 'A', V1, [['sv', V1, [['v', V1, 'x t2']]]]], ['add', 'N'],
